@@ -2,6 +2,7 @@
    Totality: every accessor of Fsm.v/View.v is a total Gallina function on every record. *)
 From Coq Require Import List NArith ZArith String Bool.
 From DT Require Import GenStatus GenEvent GenMsgType FsmTypes GenFsm Fsm Machine View Caches Msg Node FsmFacts C19Proofs NodeFacts NodeProps.
+From DT Require GenDecide DecideEq.
 Import ListNotations.
 
 Theorem C19_last_is_final_entry :
@@ -72,3 +73,31 @@ Theorem C19_logs_node_history :
       c_results (m_chan (cs_m cs')) = c_results (m_chan (cs_m cs)) ++ s2.
 Proof. exact logs_history. Qed.
 Print Assumptions C19_logs_node_history.
+
+(* the derived views the theorems above are about are the accessors of the source: regenerated from
+   channels/channel_state.go (InitiatorPaused, ResponderPaused, BothPaused, SelfPaused) on every run *)
+Theorem C19_pause_views_are_the_sources :
+  forall c, GenDecide.gen_InitiatorPaused c = initiator_paused_view c /\
+            GenDecide.gen_ResponderPaused c = responder_paused_view c /\
+            GenDecide.gen_BothPaused c = both_paused_view c /\
+            GenDecide.gen_SelfPaused c = self_paused_view c.
+Proof. exact DecideEq.pause_views_are_source. Qed.
+Print Assumptions C19_pause_views_are_the_sources.
+
+(* who the other party is and which way the data flows (is_pull, other_peer) are the accessors of
+   the source: regenerated from channels/channel_state.go (IsPull, OtherPeer) on every run *)
+Theorem C19_party_views_are_the_sources :
+  forall c, GenDecide.gen_IsPull c = is_pull c /\ GenDecide.gen_OtherPeer c = other_peer c.
+Proof. exact DecideEq.party_views_are_source. Qed.
+Print Assumptions C19_party_views_are_the_sources.
+
+(* the counters, block totals, limit and finalization flag a channel's accessors show are the stored
+   fields of the same name: regenerated from channels/channel_state.go on every run *)
+Theorem C19_counter_views_are_the_sources :
+  forall c, GenDecide.gen_Queued c = c_queued c /\ GenDecide.gen_Sent c = c_sent c /\
+            GenDecide.gen_Received c = c_received c /\ GenDecide.gen_DataLimit c = c_limit c /\
+            GenDecide.gen_TotalSize c = c_totalsize c /\ GenDecide.gen_RequiresFinalization c = c_reqfin c /\
+            GenDecide.gen_QueuedCidsTotal c = c_qblocks c /\ GenDecide.gen_SentCidsTotal c = c_sblocks c /\
+            GenDecide.gen_ReceivedCidsTotal c = c_rblocks c.
+Proof. exact DecideEq.counters_are_source. Qed.
+Print Assumptions C19_counter_views_are_the_sources.
